@@ -58,4 +58,121 @@ theorem udptlRecv_safe (buf : Array UInt8) (b : Buf) :
   · exact ⟨rfl, by domega, by domega, by domega⟩
   · domega
 
+/-! ### UDPTL receive buffer -/
+
+theorem filter_ne_lt (l : List (Nat × Nat)) (k : Nat) (h : l.any (fun e => decide (e.1 = k)) = true) :
+    (l.filter (fun e => decide (e.1 ≠ k))).length < l.length := by
+  induction l with
+  | nil => simp at h
+  | cons a t ih =>
+    have hle := List.length_filter_le (fun e : Nat × Nat => decide (e.1 ≠ k)) t
+    rw [List.filter_cons]
+    split
+    · rename_i hk
+      have hk' : a.1 ≠ k := by simpa using hk
+      rw [List.any_cons] at h
+      have ht : t.any (fun e => decide (e.1 = k)) = true := by simpa [hk'] using h
+      have := ih ht
+      simp only [List.length_cons]; omega
+    · simp only [List.length_cons]; omega
+
+theorem remove_len_le (u : UBuf) (k : Nat) : (u.remove k).buffer.length ≤ u.buffer.length := by
+  unfold UBuf.remove; exact List.length_filter_le _ _
+
+theorem popExpected_spec (u : UBuf) (h : u.has u.expected = true) :
+    u.popExpected.buffer.length < u.buffer.length ∧ u.popExpected.maxSize = u.maxSize := by
+  unfold UBuf.popExpected UBuf.remove
+  exact ⟨filter_ne_lt _ _ (by simpa [UBuf.has] using h), rfl⟩
+
+theorem popExpected_le (u : UBuf) : u.popExpected.buffer.length ≤ u.buffer.length ∧ u.popExpected.maxSize = u.maxSize := by
+  unfold UBuf.popExpected
+  exact ⟨remove_len_le u _, rfl⟩
+
+theorem bufferedInsert_spec (u : UBuf) (seq len : Nat) (hu : u.buffer.length ≤ u.maxSize) (hm : u.maxSize < 65536) :
+    (u.bufferedInsert seq len).buffer.length ≤ u.maxSize ∧ (u.bufferedInsert seq len).maxSize = u.maxSize ∧
+    (u.bufferedInsert seq len).expected = u.expected := by
+  unfold UBuf.bufferedInsert
+  have h3 : u.buffer.length % 65536 = u.buffer.length := Nat.mod_eq_of_lt (by omega)
+  split
+  · have := remove_len_le u seq
+    refine ⟨?_, rfl, rfl⟩
+    simp only [List.length_cons]; omega
+  · exact ⟨hu, rfl, rfl⟩
+
+/-- `flush_contiguous` terminates (each round removes an entry) and never grows the buffer -/
+theorem flushContiguous_safe {E : Nat → Prop} (u : UBuf) {Q b n}
+    (h : ∀ u', u'.buffer.length ≤ u.buffer.length → u'.maxSize = u.maxSize → Q u' b n) :
+    safe E (flushContiguous u) Q b n := by
+  unfold flushContiguous
+  apply safe_loop (fun u' b' n' => b' = b ∧ n' = n ∧ u'.buffer.length ≤ u.buffer.length ∧ u'.maxSize = u.maxSize)
+    (fun u' _ => u'.buffer.length)
+  · intro u' b' n' hinv
+    obtain ⟨hb, hn, hl, hm⟩ := hinv
+    subst hb hn
+    unfold flushContiguousBody
+    apply safe_ite <;> intro hh
+    · apply safe_pure
+      have h1 := popExpected_spec u' hh
+      dsimp only
+      exact ⟨⟨rfl, rfl, by omega, by rw [h1.2]; exact hm⟩, h1.1⟩
+    · apply safe_pure
+      exact h _ hl hm
+  · exact ⟨rfl, rfl, Nat.le_refl _, rfl⟩
+  · omega
+
+attribute [local irreducible] flushContiguous
+
+theorem cleanupStale_len (u : UBuf) : (cleanupStale u).buffer.length ≤ u.buffer.length ∧ (cleanupStale u).maxSize = u.maxSize := by
+  unfold cleanupStale; exact ⟨List.length_filter_le _ _, rfl⟩
+
+/-- one delivery: total, and the out-of-order buffer never exceeds `max_size` entries -/
+theorem tryDeliver_safe {E : Nat → Prop} (u : UBuf) (seq len : Nat) {Q b n} (hu : u.buffer.length ≤ u.maxSize) (hm : u.maxSize < 65536)
+    (h : ∀ r, r.2.buffer.length ≤ r.2.maxSize → r.2.maxSize = u.maxSize → Q r b n) :
+    safe E (tryDeliver u seq len) Q b n := by
+  unfold tryDeliver
+  dsimp only
+  apply safe_ite <;> intro h1
+  · apply safe_pure; apply h <;> simp only <;> omega
+  apply safe_ite <;> intro h2
+  · apply safe_bind
+    apply flushContiguous_safe
+    intro u' hl hm'
+    apply safe_pure
+    have := cleanupStale_len u'
+    apply h <;> simp only at * <;> omega
+  apply safe_ite <;> intro h3
+  · have hb := bufferedInsert_spec { u with received := u.received + 1 } seq len hu hm
+    generalize UBuf.bufferedInsert { u with received := u.received + 1 } seq len = u2 at *
+    apply safe_ite <;> intro h4
+    · have hp := popExpected_le u2
+      apply safe_bind
+      apply flushContiguous_safe
+      intro u' hl hm'
+      apply safe_pure
+      apply h <;> simp only at * <;> omega
+    · apply safe_pure; apply h <;> simp only at * <;> omega
+  · apply safe_pure; apply h <;> simp only <;> omega
+
+attribute [local irreducible] tryDeliver
+
+theorem deliverRun_safe (ops : List (Nat × Nat)) (u : UBuf) (b : Buf) (n : Nat) (hu : u.buffer.length ≤ u.maxSize) (hm : u.maxSize < 65536) :
+    safe (fun _ => True) (deliverRun u ops)
+      (fun r _ _ => ∀ d ∈ r, ∀ cnt, d[2]? = some cnt → cnt ≤ u.maxSize) b n := by
+  induction ops generalizing u n with
+  | nil => unfold deliverRun; apply safe_pure; intro d hd; simp at hd
+  | cons p rest ih =>
+    unfold deliverRun
+    apply safe_bind
+    apply tryDeliver_safe _ _ _ hu hm
+    intro r hr1 hr2
+    apply safe_bind
+    apply safe_mono (ih r.2 n hr1 (by omega))
+    intro more _ _ hmore
+    apply safe_pure
+    intro d hd cnt hc
+    simp only [List.mem_cons] at hd
+    rcases hd with rfl | hd
+    · simp at hc; omega
+    · have := hmore d hd cnt hc; omega
+
 end RtcModel.C07.Media
